@@ -189,7 +189,7 @@ Section ModuloDate.
 
   (** timestamp_nanos_opt: the exact count, absent exactly when it does not fit i64 (the negative
       branch's re-association included) *)
-  Lemma nanos_opt_arith S f : SEC_MIN <= S <= SEC_MAX -> 0 <= f < G ->
+  Lemma nanos_opt_arith S f : SEC_MIN <= S <= SEC_MAX -> 0 <= f < 2 * G -> (f < G \/ S mod 60 = 59) ->
     (let* '(ts, sn) := (if S <? 0 then let* s' := sub_i64 f 1000000000 in let* t' := add_i64 S 1 in Val (t', s')
                         else Val (S, f)) in
      match checked_mul in_i64 ts 1000000000 with
@@ -197,7 +197,7 @@ Section ModuloDate.
      | Some m => Val (checked_add in_i64 m sn)
      end) = Val (if in_i64 (S * G + f) then Some (S * G + f) else None).
   Proof.
-    intros Hr Hf. destruct (S <? 0) eqn:Eneg.
+    intros Hr Hf Hl. destruct (S <? 0) eqn:Eneg.
     - unfold sub_i64, add_i64.
       rewrite chk_val by (ranges; consts; lia). cbv [bind].
       rewrite chk_val by (ranges; consts; lia). cbv [bind].
@@ -221,7 +221,18 @@ Section ModuloDate.
     intros Hv Hl. pose proof (secs_of_range a Hv) as Hr.
     unfold dt_timestamp_nanos_opt. rewrite timestamp_spec by assumption. rewrite bind_val.
     destruct Hv as [Hd [Hs Hf]]. unfold nonleap in Hl.
-    exact (nanos_opt_arith (secs_of a) (dfrac a) Hr ltac:(lia)).
+    exact (nanos_opt_arith (secs_of a) (dfrac a) Hr Hf (or_introl Hl)).
+  Qed.
+  (* the same for the leap-second values [from_timestamp] can produce (second 59): with the reading
+     count = timestamp * 10^9 + subsec_nanos used by timestamp_millis/_micros *)
+  Lemma timestamp_nanos_opt_leap59 a : valid_ndt a -> dsecs a mod 60 = 59 ->
+    dt_timestamp_nanos_opt a = Val (if in_i64 (instant a) then Some (instant a) else None).
+  Proof.
+    intros Hv Hl. pose proof (secs_of_range a Hv) as Hr.
+    unfold dt_timestamp_nanos_opt. rewrite timestamp_spec by assumption. rewrite bind_val.
+    destruct Hv as [Hd [Hs Hf]].
+    assert (Hm : secs_of a mod 60 = 59) by (unfold secs_of, unix_secs; lia).
+    exact (nanos_opt_arith (secs_of a) (dfrac a) Hr Hf (or_intror Hm)).
   Qed.
   Lemma timestamp_nanos_spec a : valid_ndt a -> nonleap a ->
     dt_timestamp_nanos a = if in_i64 (instant a) then Val (instant a) else Panic.
@@ -538,6 +549,17 @@ Proof.
   unfold tz_timestamp_millis, tz_timestamp_millis_opt, rmap, unwrap_r.
   destruct (dt_from_timestamp_millis ms) as [[a|]| |]; reflexivity.
 Qed.
+
+(** Why the second-59 condition: a leap-second fraction on another second (a state reachable through
+    with_second / with_nanosecond, never through from_timestamp) just below the i64 window:
+    1677-09-21T00:12:42 with fraction 1_999_999_999 has timestamp * 10^9 + subsec_nanos =
+    -9223372036000000001, inside i64, but the accessor's negative branch overflows and reports None. *)
+Lemma nanos_opt_leap_gap :
+  let a := mk_ndt 13742219 (Time.mk_time 762 1999999999) in
+  Date.from_yo_opt 1677 264 = Val (Some 13742219) /\ dt_timestamp a = Val (-9223372038) /\
+  in_i64 (-9223372038 * G + 1999999999) = true /\ dt_timestamp_nanos_opt a = Val None /\
+  dt_timestamp_micros a = Val (-9223372036000001).
+Proof. vm_compute. repeat split; reflexivity. Qed.
 
 (** the definitions are inhabited (no dependence on the C01 facts): the doc example
     from_timestamp(1431648000, 0) = 2015-05-15T00:00:00 *)
